@@ -362,8 +362,9 @@ def certificate(serial: int, number: int, text: bytes, data: bytes) -> bool:
         nonce = data
     elif dim != 'serial':
         raise NotImplementedError(dim)
-    critical = [(b'force-command', ref.string(b'/bin/true')), (b'source-address', ref.string(b'10.0.0.0/8'))][:P['NCRIT']]
-    extensions = [(b'permit-X11-forwarding', b''), (b'permit-pty', b''), (b'zz-unknown@example', data)][:P['NEXT']]
+    # deliberately not in lexical order: the blob keeps the order the CA wrote
+    critical = [(b'source-address', ref.string(b'10.0.0.0/8')), (b'force-command', ref.string(b'/bin/true'))][:P['NCRIT']]
+    extensions = [(b'zz-unknown@example', data), (b'permit-pty', b''), (b'permit-X11-forwarding', b'')][:P['NEXT']]
     pub = bytes(range(32))
     signer = ref.key_ed25519(bytes(range(32, 64)))
     sig = ref.signature(b'ssh-ed25519', bytes(64))
@@ -437,6 +438,24 @@ def banner(text: bytes) -> bool:
     if (parsed.comment.encode('ascii') if parsed.comment is not None else None) != comment:
         return False
     return bytes(parsed.compose()) == wire
+
+
+def banner_lengths():
+    """concrete: identification strings up to the RFC 4253 maximum of 255 bytes are conformant and must be accepted"""
+    from cryptoparser.ssh.subprotocol import SshProtocolMessage  # pylint: disable=import-outside-toplevel
+    problems = []
+    for total in (200, 253, 254, 255):
+        for comment in (None, b'c'):
+            software = b'x' * (total - 8 - 2 - (2 if comment else 0))
+            wire = ref.banner(b'2.0', software, comment)
+            try:
+                parsed = SshProtocolMessage.parse_exact_size(wire)
+            except Exception as exc:  # pylint: disable=broad-except
+                problems.append('conformant banner of %d bytes rejected: %s' % (len(wire), type(exc).__name__))
+                continue
+            if bytes(parsed.compose()) != wire:
+                problems.append('banner of %d bytes does not compose back' % len(wire))
+    return problems
 
 
 # --- C16 ---------------------------------------------------------------------------------------------------------------
@@ -710,6 +729,8 @@ def shards_c07(tier, seed):  # pylint: disable=unused-argument
                          900 if thorough else 300,
                          bounds='identification string with %d symbolic character(s) in the %s; comment %r' % (
                              2 if thorough else 1, where, comment)))
+    out.append(Shard(MOD, 'banner_lengths', 'banner/lengths', {}, kind='concrete',
+                     bounds='identification strings of 200, 253, 254, 255 bytes with and without comment (natively)'))
     out.append(Shard(MOD, 'key_stub_conformance', 'key_stub_conformance', {}, kind='concrete',
                      bounds='S-key container vs real PublicKey on 50 concrete RSA and Ed25519 keys'))
     return out
